@@ -187,6 +187,14 @@ def run(ctx):
     res = Result()
     run_histories(ctx, res, ctx.n(2400, 60000), lambda r: [Ledger(r)])
 
+    # application threads sharing one NodeList (workload of C02; the
+    # oversubscription oracle in it is ours)
+    from .c02 import nodelist_threads
+    rng = ctx.rng('nodelist-threads')
+    for i in range(ctx.n(640, 16000)):
+        nodelist_threads(rng, res)
+        if len(res.violations) > 10:
+            break
     rng = ctx.rng('nodelist')
     for i in range(ctx.n(1600, 40000)):
         case = nodelist_history(rng, res)
